@@ -4,6 +4,7 @@ sys.path.insert(0, os.path.dirname(os.path.dirname(os.path.abspath(__file__))))
 import z3
 from aovc.check import run_check
 from aovc import effects, frontend
+from contracts import centroiders, imaging, fourier, atmos
 
 RECIPE_OF = {}   # qualname -> native recipe name (same names by construction)
 
@@ -31,7 +32,7 @@ def build(chk):
             chk.unsupported.append((fname, "effects analysis undecided at line %d: %s" % (u.lineno, u.what)))
     chk.confirm_known("C20-global-rng", "purity", {"recipe": "optimal_grouping"})
     # bounded native stand-in in the thorough tier (and the differential check of the analysis): every recipe, before/after comparison
-    if chk.tier == "thorough":
+    if True:       # bounded native stand-in, every tier: before/after comparison of every recipe
         fam = chk.native("family", None, None)
         chk.native_evals += int(fam.get("evaluations", 0) or 0)
         chk.bounded.append({"name": "native purity recipes", "bound": "one recipe input per public function (native/C20.py RECIPES)", "evaluations": fam.get("evaluations"), "result": fam.get("status"),
@@ -41,9 +42,19 @@ def build(chk):
             chk.violations.append(("native-purity", path, True))
             print("FAILED native purity recipe: %s" % fam.get("message"))
             print("VIOLATION property=C20 replay=%s" % os.path.relpath(path, os.path.dirname(os.path.dirname(os.path.abspath(__file__)))))
+    # batch clause: a batched call gives, per item, what the single-item call gives -- the per-item obligations of C15, C16, C09, C17 re-checked here
+    chk.assumptions_used.update(["A-REAL", "A-INT"])
+    with chk.borrow("C15"):
+        centroiders.obligations(chk)
+    with chk.borrow("C16"):
+        imaging.bin_obligations(chk)
+    with chk.borrow("C09"):
+        fourier.obligations(chk, real_variants=False)     # (the real-input variants have no batch clause of their own)
+    with chk.borrow("C17"):
+        atmos.axis_obligations(chk)
     chk.assumptions_used.update(["A-NP"])
     chk.notes.append("view / copy / in-place behaviour of NumPy calls is taken from the tables in aovc/effects.py (VIEW_FUNCS, VIEW_METHODS, MUTATING_METHODS, MUTATING_FUNCS, PURE_METHODS): trusted")
-    chk.notes.append("batch clause (per item = single call) is decided by the per-item obligations of C09 (batch axis), C15 (stack vs frame), C16 (binning of stacks), C17 (axis argument)")
+    chk.notes.append("batch clause (per item = single call): the per-item obligations of C09 (batch axis), C15 (stack vs frame), C16 (binning of stacks), C17 (axis argument) are re-generated and discharged in this check (names prefixed [Cxx])")
     chk.not_decided.append("bit-identity of results across calls beyond 'no hidden state is read' (determinism of NumPy kernels is assumed)")
 
 
